@@ -354,7 +354,8 @@ Proof. intros H. unfold apply_indexed.
     set (s1 := if modif then _ else _).
     assert (Hs1 : Inv g (s_eng s1)) by (unfold s1; destruct modif, uc; exact H1).
     destruct work as [|w0 work']; [leafI; exact Hs1|].
-    destruct (negb (same_para_direct d1 (w0 :: work'))); [leafI; exact H|].
+    destruct (negb (one_story d1 (w0 :: work'))); [leafI; exact Hs1|].
+    destruct (negb (all_direct d1 (w0 :: work'))); [leafI; exact H|].
     pose proof (fold_delete_inv g (w0 :: work') (s_eng s1) [] Hs1) as HF.
     destruct (fold_left _ (w0 :: work') (s_eng s1, [])) as [e2 dels]. cbn [fst] in HF.
     leafI. now apply attach_inv.
@@ -365,7 +366,8 @@ Proof. intros H. unfold apply_indexed.
     set (s1 := if modif then _ else _).
     assert (Hs1 : Inv g (s_eng s1)) by (unfold s1; destruct modif, uc; exact H1).
     destruct work as [|w0 work']; [leafI; exact Hs1|].
-    destruct (negb (same_para_direct d1 (w0 :: work'))); [leafI; exact H|].
+    destruct (negb (one_story d1 (w0 :: work'))); [leafI; exact Hs1|].
+    destruct (negb (all_direct d1 (w0 :: work'))); [leafI; exact H|].
     pose proof (fold_delete_inv g (w0 :: work') (s_eng s1) [] Hs1) as HF.
     destruct (fold_left _ (w0 :: work') (s_eng s1, [])) as [e2 dels]. cbn [fst] in HF.
     destruct nw as [|c nw']; [leafI; exact HF|].
@@ -465,7 +467,7 @@ Theorem engine_counts d author ts edits orc :
   let '(_, ap, sk, out, _) := apply_edits d author ts edits orc in out = 0 -> ap + sk = length edits.
 Proof. unfold apply_edits.
   set (e := mk_engine d author ts).
-  set (s0 := {| s_eng := e; s_raw := _; s_clean := None; s_cm0 := _; s_cmc := [] |}).
+  set (s0 := {| s_eng := e; s_raw := _; s_clean := None; s_cm0 := _; s_cmc := []; s_xp := 0 |}).
   set (indexed := filter _ edits). set (heur := filter (fun x => match ed_index x with Some _ => false | None => true end) edits).
   assert (Hlen : length indexed + length heur = length edits).
   { unfold indexed, heur. rewrite <- (filter_split_length (fun x => match ed_index x with Some _ => true | None => false end) edits). f_equal.
@@ -495,7 +497,7 @@ Proof. cbn zeta. intros Hwf. unfold apply_edits.
   { unfold e, mk_engine. fold nd. split; [|cbn [e_doc e_cur e_next_c]; split; [unfold n0; lia|split; [unfold cur0; lia|split; [unfold c0; lia|exact Hwf]]]]. cbn [e_doc].
     intros _. apply Rel_is_RelG; [|apply Rel_refl]. unfold wf_ids in Hwf. apply Forall_forall. intros p Hp. rewrite Forall_forall in Hwf.
     unfold keepP, kid, n0. apply Nat.ltb_lt. exact (Hwf p Hp). }
-  set (s0 := {| s_eng := e; s_raw := _; s_clean := None; s_cm0 := _; s_cmc := [] |}).
+  set (s0 := {| s_eng := e; s_raw := _; s_clean := None; s_cm0 := _; s_cmc := []; s_xp := 0 |}).
   set (indexed := filter _ edits). set (heur := filter (fun x => match ed_index x with Some _ => false | None => true end) edits).
   pose proof (fold_idx_inv cur0 c0 n0 nd (sort_idx_desc indexed) (s0, 0, 0, 0, [], 0) He) as HI.
   destruct (fold_left step_idx (sort_idx_desc indexed) (s0, 0, 0, 0, [], 0)) as [[[[[s1 ap1] sk1] out1] occ1] nn1]. cbn [i_inv] in HI.
@@ -816,13 +818,15 @@ Proof. unfold apply_indexed, sdoc.
     set (s1 := if modif then _ else _).
     assert (Hs1 : e_doc (s_eng s1) = d1) by (unfold s1; destruct modif, uc; reflexivity).
     destruct work as [|w0 work']; [cbn [fst snd]; intros _; rewrite Hs1; exact RR|].
-    destruct (negb (same_para_direct d1 (w0 :: work'))); [leafA|].
+    destruct (negb (one_story d1 (w0 :: work'))); [cbn [fst snd]; intros _; rewrite Hs1; exact RR|].
+    destruct (negb (all_direct d1 (w0 :: work'))); [leafA|].
     match goal with |- context[fold_left ?f ?l ?a] => destruct (fold_left f l a) as [e2 dels] end. leafA.
   - pose proof (resolve_keeps_tape (e_doc e) sp st (st + length tg)) as RR. destruct (resolve (e_doc e) sp st (st + length tg)) as [[d1 work] modif]. cbn [fst] in RR.
     set (s1 := if modif then _ else _).
     assert (Hs1 : e_doc (s_eng s1) = d1) by (unfold s1; destruct modif, uc; reflexivity).
     destruct work as [|w0 work']; [cbn [fst snd]; intros _; rewrite Hs1; exact RR|].
-    destruct (negb (same_para_direct d1 (w0 :: work'))); [leafA|].
+    destruct (negb (one_story d1 (w0 :: work'))); [cbn [fst snd]; intros _; rewrite Hs1; exact RR|].
+    destruct (negb (all_direct d1 (w0 :: work'))); [leafA|].
     match goal with |- context[fold_left ?f ?l ?a] => destruct (fold_left f l a) as [e2 dels] end.
     destruct nw as [|c nw']; [leafA|].
     match goal with |- context[inline_text ?t] => destruct (inline_text t) end.
@@ -879,7 +883,7 @@ Theorem engine_no_trace d author ts edits orc :
   let '(d', ap, _, _, _) := apply_edits d author ts edits orc in ap = 0 -> ARel (normalize_doc d) d'.
 Proof. unfold apply_edits. set (nd := normalize_doc d).
   set (e := mk_engine d author ts).
-  set (s0 := {| s_eng := e; s_raw := _; s_clean := None; s_cm0 := _; s_cmc := [] |}).
+  set (s0 := {| s_eng := e; s_raw := _; s_clean := None; s_cm0 := _; s_cmc := []; s_xp := 0 |}).
   assert (H0 : i_nt nd (s0, 0, 0, 0, [], 0)) by (intros _; apply ARel_refl).
   set (indexed := filter _ edits). set (heur := filter (fun x => match ed_index x with Some _ => false | None => true end) edits).
   pose proof (fold_idx_nt nd (sort_idx_desc indexed) _ H0) as HI.
@@ -946,3 +950,40 @@ Theorem history_contracts : forall ss d, wf_ids d -> trace_ok d ss (run_history 
 Proof. induction ss as [|s r IH]; intros d W; cbn [run_history trace_ok]; auto.
   pose proof (wf_run_session d s W) as W'. split; [now apply run_session_contract|]. split; [exact W'|now apply IH]. Qed.
 Print Assumptions history_contracts.
+
+(* the instrumented batch (which also reports the model's count of cross-paragraph deletions / modifications) is the batch *)
+Lemma apply_edits_x_fst d author ts edits orc : fst (apply_edits_x d author ts edits orc) = apply_edits d author ts edits orc.
+Proof. unfold apply_edits_x, apply_edits.
+  destruct (fold_left step_idx _ _) as [[[[[s1 ap1] sk1] out1] occ1] nn1].
+  destruct (filter (fun x => match ed_index x with Some _ => false | None => true end) edits) as [|h heur']; [reflexivity|].
+  destruct (plan _ _ _) as [planned orc1].
+  destruct (fold_left step_heur _ _) as [[[[[[s2 ap2] sk2] out2] orc2] occ2] nn2]. reflexivity. Qed.
+
+(* decision rule of fix D57: a deletion or modification is carried out only when the runs its range resolves to lie in ONE story -
+   revision marks and comment ranges never span document parts.  (Applied, not AppliedN: the nested-insertion shortcut rewrites
+   one w:ins, which lies in one paragraph.) *)
+Lemma nested_replace_not_Applied s i nw cm : snd (nested_replace s i nw cm) <> Applied.
+Proof. unfold nested_replace. destruct (first_ins i (e_doc (s_eng s))) as [n|]; [|cbn; discriminate].
+  destruct n; try (cbn; discriminate). destruct nw; [cbn; discriminate|].
+  destruct (nested_inline _ _ _) as [e1 oins]. destruct oins; cbn; discriminate. Qed.
+Lemma apply_indexed_one_story s uc st tg nw cm o :
+  match o with Some OpIns => False | Some _ => True | None => tg <> [] end ->
+  snd (apply_indexed s uc st tg nw cm o) = Applied ->
+  let sp := if uc then match s_clean s with Some m => m | None => s_raw s end else s_raw s in
+  let '(d1, work, _) := resolve (e_doc (s_eng s)) sp st (st + length tg) in one_story d1 work = true.
+Proof. intros Ho. unfold apply_indexed.
+  set (sp := if uc then _ else _). set (e := s_eng s) in *.
+  destruct (match _ with Some c => is_some_nonempty (o_ins c) | None => false end).
+  { intros HH. exfalso. exact (nested_replace_not_Applied _ _ _ _ HH). }
+  destruct (negb (block_ok nw)); [cbn [snd]; discriminate|].
+  cbn zeta.
+  assert (Hop : (match o with Some x => x | None => match tg, nw with [], _ :: _ => OpIns | _ :: _, [] => OpDel | _, _ => OpMod end end) <> OpIns).
+  { destruct o as [[| |]|]; try discriminate; [contradiction|]. destruct tg as [|c t]; [contradiction|]. destruct nw; discriminate. }
+  destruct (match o with Some x => x | None => _ end); [contradiction| |].
+  - destruct (resolve (e_doc e) sp st (st + length tg)) as [[d1 work] modif].
+    destruct work as [|w0 work']; [cbn [snd]; discriminate|].
+    destruct (one_story d1 (w0 :: work')); [reflexivity|]. cbn [negb snd]. discriminate.
+  - destruct (resolve (e_doc e) sp st (st + length tg)) as [[d1 work] modif].
+    destruct work as [|w0 work']; [cbn [snd]; discriminate|].
+    destruct (one_story d1 (w0 :: work')); [reflexivity|]. cbn [negb snd]. discriminate.
+Qed.
